@@ -331,7 +331,21 @@ func checkValidityTables(c *fw.Ctx) {
 				ok = true
 			}
 		}
-		c.Check(ok, rule, "the 7-day cap applies when valid_until_ts is later than now + 7 days", c.P.Pos(fn.Pos()), "", "no test validUntil.After(now + 168h)")
+		// positive evidence of a wrong cap: the constant added to now is not 7 days
+		wrongCap := ""
+		for _, call := range fw.CallsTo(fn, false, fw.NameIs("(time.Time).Add")) {
+			if d, isC := fw.ConstInt(call.Common().Args[len(call.Common().Args)-1]); isC && d != 604800000000000 {
+				wrongCap = fmt.Sprint(d)
+			}
+		}
+		switch {
+		case wrongCap != "":
+			c.Fail(rule, "the 7-day cap applies when valid_until_ts is later than now + 7 days", c.P.Pos(fn.Pos()), "the cap added to now is "+wrongCap+"ns, not 7 days")
+		case ok:
+			c.Ok(rule, "the 7-day cap applies when valid_until_ts is later than now + 7 days", c.P.Pos(fn.Pos()), "")
+		default:
+			c.Undecided(rule, "the 7-day cap applies when valid_until_ts is later than now + 7 days", "no test validUntil.After(now + 168h) in the form the rule knows (the table rule above decides the behaviour when it understands the code)")
+		}
 	}
 	if fn := mustFunc(c, rule, "NoStrictValidityCheck"); fn != nil {
 		compareTable(c, rule, "lenient rule accepts", fn, 0, nil, &interp{}, func(a asg) string { return "value:true" }, nil)
@@ -365,7 +379,9 @@ func checkVerifyJSONsFlow(c *fw.Ctx) {
 	}
 	_, bad := fw.MustPrecede(fn, func(i ssa.Instruction) bool { return i == dbFetch[0].(ssa.Instruction) }, func(i ssa.Instruction) bool { return i == fetcherFetch[0].(ssa.Instruction) })
 	c.Check(len(bad) == 0, rule, "the key database is consulted before any fetcher", c.P.Pos(fetcherFetch[0].Pos()), "", "a fetcher can be called without the database having been queried")
-	c.Check(fw.Sig(dbFetch[0].Common().Args[1]) == reqMap && fw.Sig(fetcherFetch[0].Common().Args[1]) == reqMap, rule, "database and fetchers are asked for the (pruned) request map", c.P.Pos(fetcherFetch[0].Pos()), "", "fetcher argument: "+fw.Sig(fetcherFetch[0].Common().Args[1]))
+	// (the same value: whatever builds it)
+	c.Check(dbFetch[0].Common().Args[1] == fetcherFetch[0].Common().Args[1], rule, "database and fetchers are asked for the (pruned) request map", c.P.Pos(fetcherFetch[0].Pos()), "", "the fetchers are asked for "+fw.Sig(fetcherFetch[0].Common().Args[1])+", the database for "+fw.Sig(dbFetch[0].Common().Args[1]))
+	reqMap = fw.Sig(dbFetch[0].Common().Args[1])
 	// pruning: every delete on the request map
 	nd := 0
 	for _, call := range fw.CallsTo(fn, false, fw.NameIs("builtin.delete")) {
@@ -437,7 +453,7 @@ func checkVerifyJSONsFlow(c *fw.Ctx) {
 		// the early return for "nothing to verify" precedes the query
 		var out []fw.SuccessPath
 		for _, sp := range succ(r, reach, removed) {
-			if strings.Contains(condsOf(sp.Ret.Block()), "(builtin.len("+reqMap+") == 0)") {
+			if strings.Contains(condsOf(sp.Ret.Block()), "(builtin.len("+fw.Sig(dbFetch[0].Common().Args[1])+") == 0)") {
 				continue
 			}
 			out = append(out, sp)
@@ -446,7 +462,12 @@ func checkVerifyJSONsFlow(c *fw.Ctx) {
 	})
 	// checkUsingKeys is applied after fetching with the merged keys
 	cu := fw.CallsTo(fn, false, fw.NameIs("(*gmsl.KeyRing).checkUsingKeys"))
-	c.Check(len(cu) == 2 && reaches(fetcherFetch[0], cu[1]), rule, "results are decided from the merged keys after fetching", c.P.Pos(fn.Pos()), "", fmt.Sprintf("%d checkUsingKeys sites", len(cu)))
+	if len(cu) == 0 {
+		c.Undecided(rule, "results are decided from the merged keys after fetching", "no call of (*KeyRing).checkUsingKeys in VerifyJSONs itself")
+	} else {
+		last := cu[len(cu)-1]
+		c.Check(reaches(fetcherFetch[0], last), rule, "results are decided from the merged keys after fetching", c.P.Pos(fn.Pos()), "", fmt.Sprintf("none of the %d checkUsingKeys sites follows the fetcher loop: keys obtained from fetchers never reach a verdict", len(cu)))
+	}
 	// one result per request, returned as such
 	okLen := false
 	for _, b := range fn.Blocks {
@@ -477,8 +498,12 @@ func checkVerifyJSONsFlow(c *fw.Ctx) {
 		bad := ""
 		for _, a := range nilAlternatives(c, st.Val, di.Fr, st.Block(), fw.DNF{fw.Term{}}, 0) {
 			switch a.kind {
-			case "nil", "verify":
+			case "nil":
 				bad = a.desc + " at " + a.pos
+			case "verify":
+				// the verdict of VerifyJSON stored by a routine that is not the one rule 1 is anchored
+				// on (renamed or moved): an accept site whose guards were not examined
+				c.Undecided(rule, "VerifyJSONs itself never marks a result successful", "a VerifyJSON verdict is stored outside (*KeyRing).checkUsingKeys at "+a.pos+": the guards of that accept site were not examined")
 			case "other":
 				c.Undecided(rule, "VerifyJSONs itself never marks a result successful", "a value stored into a result's Error could not be classified: "+a.desc)
 			}
